@@ -566,10 +566,22 @@ func genCase(t *rapid.T) Case {
 			c.Body, _ = proto.Marshal(bodyMsg)
 		}
 		if len(c.Body) > 0 && rapid.IntRange(0, 3).Draw(t, "gzip") == 0 {
+			// one gzip member, or the same bytes as two concatenated members (RFC 1952 2.2: a gzip
+			// file is a series of members; pigz, bgzip and per-chunk writers produce them)
+			cut := len(c.Body)
+			if rapid.IntRange(0, 2).Draw(t, "gzipMembers") == 0 {
+				cut = rapid.IntRange(0, len(c.Body)).Draw(t, "gzipCut")
+				c.Classes = append(c.Classes, "gzip-multi-member")
+			}
 			var buf bytes.Buffer
-			zw := gzip.NewWriter(&buf)
-			zw.Write(c.Body)
-			zw.Close()
+			for _, part := range [][]byte{c.Body[:cut], c.Body[cut:]} {
+				if len(part) == 0 && cut == len(c.Body) && buf.Len() > 0 {
+					continue // single member
+				}
+				zw := gzip.NewWriter(&buf)
+				zw.Write(part)
+				zw.Close()
+			}
 			c.Body = buf.Bytes()
 			c.Gzip = true
 		}
@@ -583,7 +595,7 @@ func genCase(t *rapid.T) Case {
 	}
 	c.Accept = rapid.SampledFrom([]string{"", "", "", "application/json", "application/protobuf", "*/*", "application/octet-stream;q=0.5, application/json;q=0.1", "text/html"}).Draw(t, "accept")
 	// classes
-	c.Classes = []string{"body=" + c.BodySel, "accept=" + c.Accept, fmt.Sprintf("vars=%d", len(vars)), "ct=" + c.ContentType}
+	c.Classes = append(c.Classes, "body="+c.BodySel, "accept="+c.Accept, fmt.Sprintf("vars=%d", len(vars)), "ct="+c.ContentType)
 	if c.Gzip {
 		c.Classes = append(c.Classes, "gzip")
 	}
